@@ -46,6 +46,24 @@ Proof.
   exact (write_object pm json_tables json_schema json_smeta json_triples spec_xsd_names lt closed C05_json_conforms cls scls v).
 Qed.
 
+(* ... in which every attribute that holds a value (not None, not the empty collection) appears under the member name
+   of the mapping with the encoding of exactly that value - falsy values (false, 0, "", zero durations) included.
+   Stated for the plain conditions; the two nested ones (revision under version, kind = Template) are covered by the
+   table check [present_ok] and by C03. *)
+Theorem C05_write_json_members_present :
+  forall pm lt cls ctx scls classes fs attrs a x,
+    swf pm json_smeta (KObj classes ctx) (VObj cls fs) = true -> tmem3 (cls, ctx, scls) json_triples = true ->
+    sfind (cls ++ ctx) json_smeta = Some attrs -> In a attrs ->
+    In (a_name a, x) fs -> x <> VNone -> x <> VList [] ->
+    exists c w ms, sfind cls json_tables = Some c /\ find_w (a_name a) (c_w c) = Some w /\ w_member w = a_member a /\
+                   enc_auto json_tables lt false (VObj cls fs) = DObj ms /\
+                   (simple_cond (w_cond w) = true ->
+                    sfind (a_member a) ms = Some (enc_with (enc_auto json_tables lt false) (w_enc w) x)).
+Proof.
+  intros pm lt.
+  exact (member_present pm json_tables json_schema json_smeta json_triples spec_xsd_names lt C05_json_conforms).
+Qed.
+
 (* ... and every environment document written for a store of well-formed identifiables validates against the
    schema's root.  [pm]-facets of typed literals computed by the SDK (lastUpdate, min/maxInterval: xsd_repr output)
    are part of [swf] (KLeaf rows of json_smeta): for those the hypothesis is about the SDK's output, not about the
@@ -97,6 +115,19 @@ Definition always_emit (cls attr : string) (T : tables) : tables :=
                 else p) T.
 Example C05_conforms_rejects_null_member :
   conforms (always_emit "Property" "value_id" json_tables) json_schema json_smeta json_triples spec_xsd_names = false.
+Proof. vm_compute. reflexivity. Qed.
+
+(* a writer that tests the truthiness of a typed value (`if obj.value:`) drops false, 0, "" and is rejected although
+   every document it writes is schema-valid *)
+Definition truthy_cond (cls attr : string) (T : tables) : tables :=
+  map (fun p => if String.eqb (fst p) cls
+                then (fst p, mkC (c_consts (snd p))
+                                 (map (fun w => if String.eqb (w_attr w) attr then mkW (w_member w) (w_attr w) WTruthy (w_enc w) (w_unstripped_only w) else w)
+                                      (c_w (snd p)))
+                                 (c_r (snd p)))
+                else p) T.
+Example C05_conforms_rejects_dropped_falsy_value :
+  conforms (truthy_cond "Property" "value" json_tables) json_schema json_smeta json_triples spec_xsd_names = false.
 Proof. vm_compute. reflexivity. Qed.
 
 (* a writer whose enum table swaps two literals of one enumeration (a change the reader's inverse table follows, so
